@@ -50,10 +50,11 @@ Lemma valid_ip_plain s : valid_ip s = true -> Forall plain s.
 Proof.
   unfold valid_ip. intros H. rewrite <- (join_split 46 s).
   destruct (split 46 s) as [|a [|b [|c [|d [|e t]]]]]; try discriminate.
-  repeat (apply andb_true_iff in H; destruct H as [H ?]).
-  repeat match goal with X : valid_octet _ = true |- _ => apply valid_octet_plain in X end.
+  apply andb_true_iff in H as [H Hd]. apply andb_true_iff in H as [H Hc].
+  apply andb_true_iff in H as [Ha Hb].
+  apply valid_octet_plain in Ha, Hb, Hc, Hd.
   cbn [join]. repeat (apply Forall_app; split; [assumption|]; constructor; [unfold plain; lia|]).
-  Show.
+  assumption.
 Qed.
 
 Lemma valid_port_plain s : valid_port s = true -> Forall plain s.
